@@ -822,6 +822,16 @@ package fzf
 //@   invariant iter < rangelen ==> idx == ranged[iter].off - masked.off
 //@   invariant iter == rangelen ==> idx == len(masked) + 1
 
+// --name=value: the option name is what precedes the first `=`, the value everything after it, verbatim - further
+// `=` signs included (one iteration of the option loop, up to the switch on the option name).
+//@ func parseOptions region @"arg := allArgs[i]"
+//@ property C17
+//@ requires 0 <= i && i < len(allArgs) && val == nil -- every pass of the loop ends with an error if a value was left unused
+//@ modifies &val
+//@ libfact @after"tokens := strings.SplitN(arg" len(tokens) == 2 -- the branch is taken only when the argument contains `=`
+//@ assert @"switch arg {" val != nil ==> arg.arr == allArgs[i].arr && arg.off == allArgs[i].off && (*val).arr == allArgs[i].arr && (*val).off == arg.off + len(arg) + 1 && (*val).off + len(*val) == allArgs[i].off + len(allArgs[i])
+//@ cut @"switch arg {" the 900-line switch over the option names is not followed
+
 //@ func parseTmuxOptions
 //@ property C17
 //@ ensures (r0 == nil) == (r1 != nil)
